@@ -321,3 +321,13 @@ PROPS['C18']['rule'] = PROPS['C18']['rule'] + (' PLUS the unmodified psa-dhcpd b
 PROPS['C15']['tests'] = list(PROPS['C15']['tests']) + ['TestC15Hook']
 PROPS['C15']['direct_files'] = list(PROPS['C15']['direct_files']) + ['c15hook']
 PROPS['C19']['tests'] = list(PROPS['C19']['tests']) + ['TestC19Hook']
+
+# replies that cannot be sent (harness/server_stories_test.go TestC05Faults): judged directly, for C05 and C01
+for _pid in ('C05', 'C01'):
+    PROPS[_pid]['tests'] = list(PROPS[_pid]['tests']) + ['TestC05Faults']
+    if PROPS[_pid].get('direct_files') is not None:
+        PROPS[_pid]['direct_files'] = list(PROPS[_pid]['direct_files']) + ['c05faults']
+
+# C16: a stalled transmission is not made up for by a burst (TestC16Stall)
+PROPS['C16']['tests'] = list(PROPS['C16']['tests']) + ['TestC16Stall']
+PROPS['C16']['direct_files'] = list(PROPS['C16']['direct_files']) + ['c16stall']
